@@ -1,0 +1,1 @@
+//! Verification facade: `btree` (feature `verif`).
